@@ -2,6 +2,7 @@ import RbV.Basic.Codec
 import RbV.Basic.AlignCodec
 import RbV.Ref.Gotoh
 import RbV.Model.PairwiseCustom
+import RbV.Model.PairwiseFill
 /-! Driver for property C01: pairwise alignment optimal, path achieves score, history independent.
 
 `c01 const => min:<MIN_SCORE>`
@@ -47,7 +48,10 @@ def checkCall (sc : Sc) (cl : Clip) (idx : Nat) (call : String × List Nat × Li
               (fun r => if filt then Model.Pairwise.filterClips r else r) with
             | some r => if r == o then "model=impl" else if r.score == o.score then "drift-path" else "drift-score"
             | none => "drift-model-no-termination"
-          .ok ([mtag] ++ (if !x.isEmpty && !y.isEmpty && !core.isEmpty then ["nt"] else [])
+          -- functional mirror of the matrix fill (`Model/PairwiseFill.lean`, the model of theorem `fill_score_eq_opt`),
+          -- evaluated on the same call: its score against the implementation's (drift, never a violation)
+          let ftag := if (Model.PairwiseFill.fill sc cl' x y).score == o.score then "fill-model=impl" else "drift-fill-score"
+          .ok ([mtag, ftag] ++ (if !x.isEmpty && !y.isEmpty && !core.isEmpty then ["nt"] else [])
             ++ [mode]
             ++ (if x.isEmpty || y.isEmpty then ["emptyseq"] else [])
             ++ (if hasClip o.ops then ["clipops"] else [])
